@@ -13,7 +13,7 @@ import random
 
 from vlib import e2e, engine, gen, netsynth as ns, outparse, quicsynth, scene, tcpcap, tlssynth
 
-KINDS = ["delete", "cut", "keys", "wrongkeys", "suite", "flip", "overwrite", "shorten", "noise-http", "noise-udp", "noise-udp-short"]
+KINDS = ["delete", "cut", "keys", "keys-cut", "wrongkeys", "suite", "flip", "overwrite", "shorten", "noise-http", "noise-udp", "noise-udp-short"]
 UNKNOWN_SUITES = [0x0A0A, 0x0000, 0xFFFF, 0xC03C, 0x0001, 0x1306, 0x5600, 0xFAFA]
 
 
@@ -48,10 +48,21 @@ def long_tls_victim(rng, ep):
     return fl
 
 
-def build_scene(rng, long_victim=False):
+def build_scene(rng, long_victim=False, shared_server=False):
     vq = rng.random() < 0.4 and not long_victim
     nb = rng.choice([1, 2, 3]) if not long_victim else 1
-    eps = gen.distinct_eps(rng, nb + 1, rng.choice(["random", "same-client-host", "random"]))
+    if shared_server:
+        # QUIC victim and QUIC bystanders on one server address; a bystander's client uses the zero-length connection ID (browsers do), another a 1..4-byte
+        # one: once the victim's long-header packets are gone, only addresses and connection IDs keep its packets away from the bystanders' sessions
+        nb = rng.choice([1, 2])
+        eps = gen.distinct_eps(rng, nb + 1, rng.choice(["same-server", "same-client-host"]))
+        flows = [gen.random_quic_flow(rng, 0, ep=eps[0], napp=rng.choice([3, 6, 10]))]
+        for i in range(nb):
+            flows.append(gen.random_quic_flow(rng, i + 1, ep=eps[i + 1], napp=rng.choice([4, 8]), ccid_len=0 if i == 0 else rng.choice([0, 1, 2, 4])))
+        items = scene.merge(flows, rng, rng.choice(["random", "bursty", "roundrobin"]))
+        scene.stamp(items, rng, "plain")
+        return flows, items
+    eps = gen.distinct_eps(rng, nb + 1, rng.choice(["random", "same-client-host", "random", "same-server", "small-pool", "mirrored"]))
     if long_victim:
         victim = long_tls_victim(rng, eps[0])
     else:
@@ -97,7 +108,7 @@ def build(tier, seed):
 
     return dict(cases=cases, evalfn=evalfn, level="fault_enumeration", min_nontrivial=60, extra=extra,
                 rule="per scene and fault kind (every sixth scene has a long victim: 180-360 short records, so that much piles up behind a fault): delete each victim packet; cut before each packet; every subset of the victim's key-log lines (TLS 1.3/QUIC all 2^4-2^5 "
-                     "subsets, <=1.2 present/absent); secrets replaced by random ones; ServerHello suite id replaced by 8 unknown/unsupported/GREASE values; bit flip at every "
+                     "subsets, <=1.2 present/absent); the key log cut inside one of the victim's lines; secrets replaced by random ones; ServerHello suite id replaced by 8 unknown/unsupported/GREASE values; bit flip at every "
                      "byte of the handshake packets and at sampled bytes elsewhere; overwrite; shorten; plain HTTP on 443; UDP payloads with every first byte x lengths "
                      "1..1500 and all lengths 1..8, with and without -a. Class = (victim kind, fault kind, position class, outcome); non-trivial = the fault run completed "
                      "and bystanders/victim were compared against the fault-free run of the same scene",
@@ -107,7 +118,7 @@ def build(tier, seed):
 def eval_case(case, seed, thorough):
     rng = random.Random(engine.subseed("C03", seed, "scene", case["scene"]))
     long_victim = case["scene"] % 6 == 5 and case["kind"] in ("delete", "cut")
-    flows, items = build_scene(rng, long_victim)
+    flows, items = build_scene(rng, long_victim, shared_server=case["scene"] % 7 == 3)
     frng = random.Random(engine.subseed("C03", seed, case["id"]))
     victim = flows[0]
     vep = victim.ep
@@ -152,6 +163,26 @@ def eval_case(case, seed, thorough):
             keep = [l for l in keys_lines if l not in vkeys or (vl.index(l) < 60 and m >> vl.index(l) & 1)]
             faults.append((f"key-log lines of the victim kept: {[l.split()[0] for j, l in enumerate(vl) if m >> j & 1]}", items, ("\n".join(keep) + "\n").encode(), [],
                            "subseq" if victim.kind == "quic" else "prefix"))
+    elif kind == "keys-cut":
+        # partial secrets: the key log ends in the middle of one of the victim's lines (a key log that is still being written); the bystanders' lines are complete
+        vl = list(victim.keylog)
+        frng.shuffle(vl)
+        head = "".join(l + "\n" for l in keys_lines if l not in vkeys)
+        tail = "".join(l + "\n" for l in vl)
+        pts = set()
+        off = 0
+        for l in vl:
+            a, b, c = l.split()
+            s0 = off + len(a) + 1 + len(b) + 1
+            pts.update([off + frng.randrange(1, len(a) + 1), off + len(a) + 1 + frng.randrange(0, len(b) + 1), s0, s0 + 1, s0 + 2, s0 + frng.randrange(0, len(c)) | 1,
+                        s0 + (frng.randrange(0, len(c)) & ~1), s0 + len(c) - 1, s0 + len(c)])
+            off += len(l) + 1
+        for c in sorted(pts) if (thorough or len(pts) <= 12) else sorted(frng.sample(sorted(pts), 12)):
+            cut = tail[:c]
+            last = cut.rsplit("\n", 1)[-1]
+            in_secret = last.count(" ") == 2 and len(last.split(" ")[2]) > 0
+            faults.append((f"key log ends after {c} of the {len(tail)} bytes of the victim's lines (last line: {len(last)} characters, {'inside the secret' if in_secret else 'before the secret'})",
+                           items, (head + cut).encode(), [], "ab" if in_secret else ("subseq" if victim.kind == "quic" else "prefix")))
     elif kind == "wrongkeys":
         for rep in range(4):
             repl = []
@@ -225,13 +256,29 @@ def eval_case(case, seed, thorough):
                 if frng.random() < 0.4:
                     body = frng.choice([b"\x00\x00\x00\x01", b"\x00\x00\x00\x00", b"\x6b\x33\x43\xcf"]) + body[4:]     # v1 / version negotiation / v2
                 payloads.append(bytes([fb]) + body)
+        cids = set()
+        for f in flows:
+            if f.kind == "quic":
+                cids.update(c for c in (f.conn.info.get("all_cids") or []) if c)
         for k, pl in enumerate(payloads):
             port = frng.choice([443, 443, 53, 4433, 50000])
-            nf = scene.udp_noise(frng, 1, k % 20, v6=frng.random() < 0.4, port=port, payloads=[pl])
+            where = f"to port {port}"
+            if k % 4 == 1:
+                # from (or to) the server address of one of the scene's flows, other end unknown: only the connection IDs keep it out of that flow's session.
+                # A payload that happens to start with one of the scene's (non-empty) connection IDs would be a legitimate match - not generated.
+                f = frng.choice(flows)
+                if any(pl[1:1 + len(c)] == c for c in cids):
+                    pl = pl[:1] + bytes(b ^ 0x55 for b in pl[1:])
+                fromsrv = frng.random() < 0.6
+                ep2 = tcpcap.Endpoints(f.ep.cmac, f.ep.smac, frng.randbytes(len(f.ep.cip)), f.ep.sip, frng.randrange(1024, 65536), f.ep.sport, 0, 0)
+                frame = scene.udp_frame(ep2, "s" if fromsrv else "c", pl)
+                where = f"{'from' if fromsrv else 'to'} the server address of {f.label} (unknown peer)"
+            else:
+                frame = scene.udp_noise(frng, 1, k % 20, v6=frng.random() < 0.4, port=port, payloads=[pl]).items[0].frame
             pos = frng.randrange(0, len(items) + 1)
-            its = list(items[:pos]) + [scene.Item(nf.items[0].frame, conn=99, dir="c", tag="udp-noise")] + list(items[pos:])
+            its = list(items[:pos]) + [scene.Item(frame, conn=99, dir="c", tag="udp-noise")] + list(items[pos:])
             scene.stamp(its, random.Random(k), "plain")
-            faults.append((f"UDP datagram of {len(pl)} bytes (first byte {pl[0]:#04x}) to port {port} inserted at {pos}", its, keys, ["-a"] if k % 3 == 0 else [], "foreign-rebased"))
+            faults.append((f"UDP datagram of {len(pl)} bytes (first byte {pl[0]:#04x}) {where} inserted at {pos}", its, keys, ["-a"] if k % 3 == 0 else [], "foreign-rebased"))
     bad, units, classes = [], 0, set()
     crash_tags = set()
     baselines = {}
